@@ -5,6 +5,8 @@
   python tools/rename_probe.py classes     every private class `_Name` -> `_NameRn`
   python tools/rename_probe.py attributes  every private attribute / field `self._x`, `_x: T` in a class body -> `_x_rn`
   python tools/rename_probe.py all         the four together
+  python tools/rename_probe.py params      every parameter of every private function / method `p` -> `p_rn`, with the keyword
+                                           arguments at their call sites (syntax-tree rewrite; comments are lost in the scratch tree)
   options:  --keep  leave the scratch tree in place;  --only C04,C11  run only these checks
             --suite  also run the repository's pinned test suite on the renamed tree (proof that behaviour is unchanged)
 
@@ -96,6 +98,98 @@ def rename_tree(root: str, names: set[str], classes: set[str]) -> int:
     return n
 
 
+class _ParamRenamer(ast.NodeTransformer):
+    def __init__(self, registry):
+        self.registry = registry  # private function name -> set of its parameter names
+        self.active: list[set] = []
+
+    def _args_of(self, node):
+        a = node.args
+        return [x for x in a.posonlyargs + a.args + a.kwonlyargs + ([a.vararg] if a.vararg else []) + ([a.kwarg] if a.kwarg else [])]
+
+    def _visit_scope(self, node, rename_own: bool):
+        own = {x.arg for x in self._args_of(node)} - {'self', 'cls'}
+        outer = self.active[-1] if self.active else set()
+        if rename_own:
+            for x in self._args_of(node):
+                if x.arg in own:
+                    x.arg += '_rn'
+            self.active.append(outer | own)
+        else:
+            self.active.append(outer - own)  # parameters of a public / nested function shadow the renamed names
+        a = node.args
+        a.defaults = [self.visit(d) for d in a.defaults]
+        a.kw_defaults = [self.visit(d) if d is not None else None for d in a.kw_defaults]
+        if isinstance(node, ast.Lambda):
+            node.body = self.visit(node.body)
+        else:
+            node.body = [self.visit(st) for st in node.body]
+            node.decorator_list = [self.visit(d) for d in node.decorator_list]
+        self.active.pop()
+        return node
+
+    def visit_FunctionDef(self, node):
+        top_private = node.name in self.registry and not self.active
+        return self._visit_scope(node, top_private)
+
+    visit_AsyncFunctionDef = visit_FunctionDef
+
+    def visit_Lambda(self, node):
+        return self._visit_scope(node, False)
+
+    def visit_ClassDef(self, node):
+        saved, self.active = self.active, []
+        self.generic_visit(node)
+        self.active = saved
+        return node
+
+    def visit_Name(self, node):
+        if self.active and node.id in self.active[-1]:
+            node.id += '_rn'
+        return node
+
+    def visit_Call(self, node):
+        self.generic_visit(node)
+        f = node.func
+        name = f.id if isinstance(f, ast.Name) else (f.attr if isinstance(f, ast.Attribute) else None)
+        if name in self.registry:
+            for kw in node.keywords:
+                if kw.arg in self.registry[name]:
+                    kw.arg += '_rn'
+        return node
+
+
+def rename_params(root: str) -> int:
+    registry: dict = {}
+    files = []
+    for dp, _, fs in os.walk(os.path.join(root, PKG)):
+        for f in fs:
+            if f.endswith('.py'):
+                p = os.path.join(dp, f)
+                tree = ast.parse(open(p, encoding='utf-8').read())
+                files.append((p, tree))
+                for node in ast.walk(tree):
+                    if isinstance(node, ast.FunctionDef | ast.AsyncFunctionDef) and _private(node.name):
+                        a = node.args
+                        names = {x.arg for x in a.posonlyargs + a.args + a.kwonlyargs} - {'self', 'cls'}
+                        registry.setdefault(node.name, set()).update(names)
+    # a function that is called with **mapping takes its keywords from data: its parameter names are not free to change
+    for _, tree in files:
+        for node in ast.walk(tree):
+            if isinstance(node, ast.Call) and any(k.arg is None for k in node.keywords):
+                f = node.func
+                registry.pop(f.id if isinstance(f, ast.Name) else (f.attr if isinstance(f, ast.Attribute) else None), None)
+    n = 0
+    for p, tree in files:
+        new = _ParamRenamer(registry).visit(tree)
+        ast.fix_missing_locations(new)
+        out = ast.unparse(new)
+        ast.parse(out)
+        open(p, 'w', encoding='utf-8').write(out + '\n')
+        n += 1
+    return sum(len(v) for v in registry.values())
+
+
 def main():
     args = [a for a in sys.argv[1:] if not a.startswith('--')]
     what = args[0] if args else 'all'
@@ -110,9 +204,13 @@ def main():
         raise SystemExit(r.stderr)
     # the working tree of /repo (uncommitted hooks etc.) is what the checks see: copy it over
     sh(f'git -C /repo diff HEAD | git -C {wt} apply --allow-empty', timeout=120)
-    names, classes = private_names(wt, what)
-    n = rename_tree(wt, names, classes)
-    print(f'renamed {len(names)} private names ({what}), {n} occurrences')
+    if what == 'params':
+        n = rename_params(wt)
+        print(f'renamed {n} parameters of private functions')
+    else:
+        names, classes = private_names(wt, what)
+        n = rename_tree(wt, names, classes)
+        print(f'renamed {len(names)} private names ({what}), {n} occurrences')
     rc = 0
     try:
         if '--suite' in sys.argv:
